@@ -372,9 +372,14 @@ def cases(tier):
     out.append(("last/tone_then_rt_tone", "    bz.play_tone(330, 10)\n    bz.play_tone(v - 300, 20)\n", an_last_only))
     out.append(("last/tone_then_silent_sweep", "    bz.play_tone(330, 10)\n    bz.sweep(0, v - 300, duration_ms=20, steps=2)\n", an_last_only))
     out.append(("last/beep_then_default_beep", "    bz.beep(v - 300, on_ms=5, off_ms=5, times=1)\n    bz.beep()\n", an_last_only))
+    out.append(("rebind/prologue_two_pins", REBIND_SRC, an_rebind))
     from Reduino.transpile import emitter
     for name in emitter._BUZZER_MELODIES:
         out.append((f"melody/{name}", f'    bz.melody("{name}")\n', an_melody(name, None)))
+    # spellings of the tune name the parser accepts (it validates case-insensitively): same score, or rejected
+    for spelled in ("Success", "SUCCESS", "sUcCeSs"):
+        out.append((f"melody/spelling/{spelled}", f'    bz.melody("{spelled}")\n', an_melody("success", None)))
+    out.append(("melody/spelling/Alarm_tempo", '    bz.melody("Alarm", tempo=90)\n', an_melody("alarm", 90)))
     out.append(("melody/startup_tempo", '    bz.melody("startup", tempo=300)\n', an_melody("startup", 300)))
     out.append(("melody/alarm_tempo_kw", '    bz.melody("alarm", tempo=90)\n', an_melody("alarm", 90)))
     out.append(("melody/error_tempo_rt", '    bz.melody("error", tempo=v)\n', an_melody_tempo_rt("error")))
@@ -383,9 +388,35 @@ def cases(tier):
     return out
 
 
+def an_rebind(events, ctx):
+    """A buzzer name bound to pin 8, used, bound again to pin 9, used: every tone/noTone goes to the pin the name is
+    bound to at that point of the program."""
+    v, w, sound, prints = split(events)
+    tones = [s for s in sound if s[0] == "tone"]
+    claims = [("two tones are played", len(tones) != 2)]
+    if len(tones) == 2:
+        claims.append(("the first tone goes to the first pin", tones[0][2] != 8))
+        claims.append(("the first tone has its frequency", tones[0][1] != z3.BitVecVal(500, 64)))
+        claims.append(("after re-binding the name the tone goes to the new pin", tones[1][2] != 9))
+        claims.append(("the second tone has its frequency", tones[1][1] != z3.BitVecVal(600, 64)))
+    seen_second = False
+    for s in sound:
+        if s[0] == "tone" and s[2] == 9:
+            seen_second = True
+        if s[0] == "notone":
+            claims.append(("silence goes to the pin that is sounding", s[1] != (9 if seen_second else 8)))
+    return claims
+
+
+REBIND_SRC = HDR.split("mon = ")[0] + ('mon = SerialMonitor(9600, "COM3")\nbz = Buzzer(8)\nbz.beep(500, on_ms=5, off_ms=5, times=1)\n'
+                                        'bz = Buzzer(9)\nbz.play_tone(600, 10)\nwhile True:\n    v = analog_read("A0")\n')
+
+
 def _work(item):
     oid, body, analyse = item
     src = HDR + body + GET
+    if oid.startswith("rebind/"):
+        src = body
     return FwSpec("buzzer/" + oid, src, analyse, passes=1, max_block_visits=300,
                   describe="tone protocol claims over the tone/noTone/delay sub-trace and the getters").run()
 
